@@ -34,7 +34,11 @@ OUTSIDE = ["dask graph execution and pygmo island threads are exercised by concr
 ASSUMPTIONS = []
 EXPLANATION = "symbolic crash point; oracle: same exception object reaches the caller, notes name group+model (+ parameters), nothing runs after the fault"
 
-EXC = {"ValueError": ValueError, "KeyError": KeyError, "RuntimeError": RuntimeError, "ZeroDivisionError": ZeroDivisionError, "OSError": OSError}
+EXC = {"ValueError": ValueError, "KeyError": KeyError, "RuntimeError": RuntimeError, "ZeroDivisionError": ZeroDivisionError, "OSError": OSError,
+       # exception classes the interpreter itself gives a control-flow meaning to: they must propagate like any other
+       "StopIteration": StopIteration, "StopAsyncIteration": StopAsyncIteration, "AssertionError": AssertionError, "LookupError": LookupError,
+       "AttributeError": AttributeError, "TypeError": TypeError, "NotImplementedError": NotImplementedError, "MemoryError": MemoryError,
+       "ImportError": ImportError, "EOFError": EOFError, "TimeoutError": TimeoutError}
 
 
 class UserFault(Exception):
@@ -46,7 +50,7 @@ GROUPS = ["photon_collection", "charge_generation", "charge_collection", "readou
 
 
 def bounds(tier):
-    return {"runs": 3, "steps": "1..3", "models": "2..4 over 2..4 groups", "exception_classes": list(EXC)}
+    return {"runs": 3, "steps": "1..3", "models": "2..4 over 2..4 groups", "exception_classes": list(EXC) + ["UserFault (a user subclass of Exception)"]}
 
 
 def tasks(tier, seed):
@@ -62,10 +66,11 @@ def tasks(tier, seed):
                 n += 1
                 out.append({"fn": "crash", "kwargs": {"steps": steps, "models": models, "mode": mode, "exc": exc},
                             "label": f"{mode}/steps={steps},models={models},{exc}"})
-    if tier == "thorough":
-        for exc in names:
-            out.append({"fn": "crash", "kwargs": {"steps": 2, "models": 3, "mode": "observation", "exc": exc}, "label": f"observation/steps=2,models=3,{exc}/all_exc"})
-    for exc in names[:3] if tier == "quick" else names:
+    # every exception class in every mode (one shape each), so that a class-specific leak cannot hide
+    for exc in names:
+        for mode in ("exposure", "observation"):
+            out.append({"fn": "crash", "kwargs": {"steps": 2, "models": 2 if tier == "quick" else 3, "mode": mode, "exc": exc}, "label": f"{mode}/all_exc/{exc}"})
+    for exc in (names[:3] + ["StopIteration"]) if tier == "quick" else names:
         out.append({"fn": "fitness_crash", "kwargs": {"exc": exc}, "label": f"fitness/{exc}"})
     out.append({"fn": "dask_replay", "kwargs": {"n": 3 if tier == "quick" else 8}, "label": "witness/dask", "kind": "direct"})
     return out
